@@ -659,6 +659,52 @@ def systemRead [Add K] [Sub K] [Mul K] [Div K] [Neg K] [One K] [OfNat K 0] [IntC
       | _, _, _, _ => none
     | _, _, _, _ => none
 
+/-! ### `DataModelDict.finds` / `find` and `load('system_model', model, key=, index=)` -/
+
+mutual
+  /-- `DataModelDict.finds(key)` (`__gen_dict_value`): every value stored under `key` at any depth, in document order —
+      for each entry of a dictionary first its own value when the key matches (a list value contributes its elements),
+      then whatever is found inside the value (inside each element of a list value); a list inside a list is not
+      searched. -/
+  def DM.finds (key : String) : DM K → List (DM K)
+    | .node kv => findsKV key kv
+    | _ => []
+  def findsKV (key : String) : List (String × DM K) → List (DM K)
+    | [] => []
+    | (k, v) :: r =>
+      (if k = key then (match v with | .list l => l | x => [x]) else [])
+        ++ (match v with
+            | .node kv' => findsKV key kv'
+            | .list l => findsL key l
+            | .leaf _ => [])
+        ++ findsKV key r
+  def findsL (key : String) : List (DM K) → List (DM K)
+    | [] => []
+    | .node kv :: r => findsKV key kv ++ findsL key r
+    | _ :: r => findsL key r
+end
+
+/-- `DataModelDict.find(key)`: the one value found; none or several are a `ValueError`. -/
+def DM.find? (t : DM K) (key : String) : Option (DM K) :=
+  match t.finds key with
+  | [x] => some x
+  | _ => none
+
+/-- `l[i]` of python: negative indices count from the end, anything outside raises. -/
+def pyIndex {α : Type} (l : List α) (i : Int) : Option α :=
+  if 0 ≤ i then l[i.toNat]?
+  else if (-i).toNat ≤ l.length then l[l.length - (-i).toNat]? else none
+
+/-- `load('system_model', model, key=key, index=index)` for an entry with a `box` (the crystal-prototype `cell`
+    branch is outside the model): all values under `key` at any depth, the `index`-th of them (python indexing), read as
+    `System(model=DM([('atomic-system', entry)]))`. -/
+def loadSystem [Add K] [Sub K] [Mul K] [Div K] [Neg K] [One K] [OfNat K 0] [IntCast K] [LT K] [DecidableLT K]
+    (fac : String → K) (eps : K) (key : String) (index : Int) (t : DM K) : Option (SystemM K) :=
+  match pyIndex (t.finds key) index with
+  | some (.node kv) =>
+    if kv.any (fun e => e.1 == "box") then systemRead fac eps (.node [("atomic-system", .node kv)]) else none
+  | _ => none
+
 /-- the API level: `system.dump('system_model', format=via, box_unit=…, prop_name=…, unit=…, prop_unit=…)` under the
     writing configuration `facW`, then `load('system_model', text)` / `System(model=text)` under the reading
     configuration `facR`.  `none` = some step raises. -/
